@@ -43,6 +43,9 @@ type Program struct {
 	Preload []string `json:"preload,omitempty"` // shards loaded (and idle) before the threads start
 	Damaged []string `json:"damaged,omitempty"` // shards whose database file is garbage at the start (a "repair" thread removes it)
 	Free    bool     `json:"free,omitempty"`    // race pass: plain goroutines, no scheduler, real locks and a real (short) idle timer
+	// BackupFails: the backup made at idle unload returns an error (a stray file in the shard
+	// directory whose name the backup rotation cannot parse); the unload itself must still happen
+	BackupFails bool `json:"backupFails,omitempty"`
 }
 
 const garbage = "this is not a bbolt database, it only has to fail to open"
@@ -109,6 +112,12 @@ func run(raw json.RawMessage, prefix []string) (*vsched.Trace, []schedlib.V, str
 		hmu.Lock()
 		outcome = append(outcome, s)
 		hmu.Unlock()
+	}
+	if p.BackupFails {
+		for _, id := range []string{"s1", "s2"} {
+			os.MkdirAll(filepath.Dir(shardPath(id)), 0755)
+			os.WriteFile(filepath.Join(filepath.Dir(shardPath(id)), "before-upgrade.backup"), []byte("x"), 0644)
+		}
 	}
 	damaged := map[string]bool{}
 	for _, id := range p.Damaged {
@@ -311,7 +320,7 @@ func clipDump(dump, needle string) string {
 }
 
 func master(cfg *harness.Config, rep *harness.Report) {
-	rep.Rule = "programs: threads from {request(s1), request(s1) twice, request(s2), delete collection} (2-4 threads) x shards preloaded-and-idle or not x backups on/off, plus programs in which the database file of s1 cannot be opened until a repair thread removes it; the idle timer of every loaded shard is a controller transition that can fire at any scheduling point while armed; scheduling points: every Lock/RLock/Unlock of the real shardmgr.go (shims), callback entry/middle/exit, deletion begin; all interleavings with at most `bound` preemptions. Invariants: the callback only runs on a usable shard handle (else a clean error before the callback), never two descriptors on one shard file, shard files present while a request uses them, no deadlock (every call returns), and a final probe can load and use every shard again (also after opens that failed)"
+	rep.Rule = "programs: threads from {request(s1), request(s1) twice, request(s2), delete collection} (2-4 threads) x shards preloaded-and-idle or not x backups on/off, plus programs in which the database file of s1 cannot be opened until a repair thread removes it, and programs in which the backup made at idle unload fails; the idle timer of every loaded shard is a controller transition that can fire at any scheduling point while armed; scheduling points: every Lock/RLock/Unlock of the real shardmgr.go (shims), callback entry/middle/exit, deletion begin; all interleavings with at most `bound` preemptions. Invariants: the callback only runs on a usable shard handle (else a clean error before the callback), never two descriptors on one shard file, shard files present while a request uses them, no deadlock (every call returns), and a final probe can load and use every shard again (also after opens that failed)"
 	rep.Assumptions = []string{"virtual timer follows the Go >= 1.23 Stop/Reset contract; it fires only at quiescent points, i.e. while the cleanup goroutine waits in its select", "channel operations of shardmgr.go are real; quiescence is a stop-the-world goroutine snapshot with every goroutine blocked", "lock operations are cooperative shims (sequentially consistent)"}
 	p := pool.New(pool.Options{CPUsPerWorker: 1, JobTimeout: 300 * time.Second})
 	if cfg.Replay != "" {
@@ -368,6 +377,8 @@ func master(cfg *harness.Config, rep *harness.Report) {
 	// cause is gone the shard must load again
 	failing := []any{Program{Threads: []Thread{req1, repair1}, Damaged: []string{"s1"}}, Program{Threads: []Thread{req1x2, repair1, del}, Damaged: []string{"s1"}}}
 	twoQuick = append(twoQuick, failing...)
+	// the backup at idle unload fails: the shard must still be closed and load again
+	twoQuick = append(twoQuick, Program{Threads: []Thread{req1, req1}, Backups: true, BackupFails: true, Preload: []string{"s1"}})
 	phases := []phase{
 		{"two-thread programs, bound 0", twoQuick, 0},
 		{"three-thread programs (s1 preloaded), bound 0", mk(three, [][]string{{"s1"}}, []bool{false}), 0},
@@ -377,6 +388,7 @@ func master(cfg *harness.Config, rep *harness.Report) {
 		twoAll := mk(two, [][]string{nil, {"s1"}, {"s1", "s2"}}, []bool{false, true})
 		threeAll := mk(three, [][]string{nil, {"s1"}, {"s1", "s2"}}, []bool{false})
 		twoAll = append(twoAll, failing...)
+		twoAll = append(twoAll, Program{Threads: []Thread{req1, req1}, Backups: true, BackupFails: true, Preload: []string{"s1"}}, Program{Threads: []Thread{req1x2, del}, Backups: true, BackupFails: true, Preload: []string{"s1"}})
 		four := []any{Program{Threads: []Thread{req1, req2, del, req1x2}, Preload: []string{"s1"}}}
 		phases = []phase{
 			{"two-thread programs, bound 0", twoAll, 0},
